@@ -1,11 +1,162 @@
 import AlgoVerif.Driver.C02
+import AlgoVerif.Model.C03
 /-!
 Line-protocol component for C03: the same Models, operations and rendering as C02 (the C03 streams
-add `probes k` observations and long churn histories; `hang` is the rendering of `Outcome.diverge`).
+add `probes k` observations and long churn histories; `hang` is the rendering of `Outcome.diverge`),
+plus the two library-internal users of the quadratic table named by the property:
+
+* `comp=productions shuffle=<seed>` — `grammar.Productions`: `add <head> <body>`, `get <head>`,
+  `removeall <head>`, `probes <head>`; heads are byte strings `x<hex>`, a body is a number;
+* `comp=lrtable shuffle=<seed>` — `lr.ParsingTable`: `addaction <s> <a> <id>`, `setgoto <s> <A> <next>`,
+  `action <s> <a>`, `goto <s> <A>`, `probes <s>`.
+
+Mutating ops print `| ` and a summary of the internal table(s): `m n u` and a digest of every occupied slot
+(index, key, size of the stored set / row, tombstone flag).  Both Models are built with the options of their
+constructor call sites in /repo (`Generated/C03CallSites.lean`).
 -/
 namespace AlgoVerif.C03.Driver
+open AlgoVerif AlgoVerif.C02 AlgoVerif.C02.Driver AlgoVerif.C03
+
+/-- digest of an open-addressing table whose values are summarised by `size` -/
+def digestWith {K V : Type} (dig : K → UInt64) (size : V → Int) (t : OATable K V) : UInt64 := Id.run do
+  let mut d : UInt64 := 14695981039346656037
+  let mut i := 0
+  for s in t.slots do
+    match s with
+    | some e =>
+      d := fnvStep (fnvStep (fnvStep (fnvStep d (UInt64.ofNat i)) (dig e.key)) (toU64 (size e.val))) (if e.deleted then 1 else 0)
+    | none => pure ()
+    i := i + 1
+  return d
+
+def summaryWith {K V : Type} (dig : K → UInt64) (size : V → Int) (t : OATable K V) : String :=
+  s!"m={t.m} n={t.n} u={t.u} h={hex16 (digestWith dig size t)}"
+
+def probesStr {K V : Type} [DecidableEq K] (hash : K → UInt64) (t : OATable K V) (k : K) : String :=
+  let sh := fun (o : Option Nat) => match o with | some c => toString c | none => "-1"
+  s!"get={sh (OA.probesGet t (mix (hash k)) k (4 * t.m + 4) 0)} find={sh (OA.probesFind t (mix (hash k)) k (4 * t.m + 4) 0)}"
+
+def setSize (l : List Nat) : Int := l.length
+
+/-! ### `grammar.Productions` -/
+
+def prodSummary (p : Productions) : String := summaryWith bytesDig setSize p.table
+
+def runProductions (g0 : Rng) (ops : List String) : List String := Id.run do
+  match Productions.new with
+  | .ok p0 =>
+    let mut p := p0
+    let mut g := g0
+    let mut dead := false
+    let mut out : Array String := #[]
+    for line in ops do
+      if dead then out := out.push "skip"; continue
+      match words line with
+      | ["add", h, b] =>
+        match parseBytes h, b.toNat? with
+        | some h, some b =>
+          match Productions.add shuffle p g h b with
+          | .ok (p', g') => p := p'; g := g'; out := out.push s!"ok | {prodSummary p'}"
+          | .panic => dead := true; out := out.push "panic"
+          | .diverge => dead := true; out := out.push "hang"
+        | _, _ => out := out.push "bad-op"
+      | ["get", h] =>
+        match parseBytes h with
+        | some h =>
+          match Productions.get p h with
+          | .ok (some l) => out := out.push s!"ok some {l.length}"
+          | .ok none => out := out.push "ok none"
+          | .panic => dead := true; out := out.push "panic"
+          | .diverge => dead := true; out := out.push "hang"
+        | none => out := out.push "bad-op"
+      | ["removeall", h] =>
+        match parseBytes h with
+        | some h =>
+          match Productions.removeAll shuffle p g h with
+          | .ok (p', g') => p := p'; g := g'; out := out.push s!"ok | {prodSummary p'}"
+          | .panic => dead := true; out := out.push "panic"
+          | .diverge => dead := true; out := out.push "hang"
+        | none => out := out.push "bad-op"
+      | ["probes", h] =>
+        match parseBytes h with
+        | some h => out := out.push s!"ok {probesStr hashString p.table h}"
+        | none => out := out.push "bad-op"
+      | _ => out := out.push "bad-op"
+    return out.toList
+  | _ => return ops.map fun _ => "panic"
+
+/-! ### `lr.ParsingTable` -/
+
+def rowSize {W : Type} (r : OATable Bytes W) : Int := r.n
+
+def rowStr {W : Type} (outer : OATable Int (OATable Bytes W)) (s : Int) : String :=
+  match OA.get hashState outer s with
+  | .ok (some r) => s!"m={r.m} n={r.n} u={r.u}"
+  | _ => "-"
+
+def runLRTable (g0 : Rng) (ops : List String) : List String := Id.run do
+  match LRTable.new with
+  | .ok t0 =>
+    let mut t := t0
+    let mut g := g0
+    let mut dead := false
+    let mut out : Array String := #[]
+    for line in ops do
+      if dead then out := out.push "skip"; continue
+      match words line with
+      | ["addaction", s, a, id] =>
+        match s.toInt?, parseBytes a, id.toNat? with
+        | some s, some a, some id =>
+          match LRTable.addAction shuffle t g s a id with
+          | .ok (t', g', r) =>
+            t := t'; g := g'
+            out := out.push s!"ok {showBool r} | {summaryWith toU64 rowSize t'.actions} row:{rowStr t'.actions s}"
+          | .panic => dead := true; out := out.push "panic"
+          | .diverge => dead := true; out := out.push "hang"
+        | _, _, _ => out := out.push "bad-op"
+      | ["setgoto", s, a, nx] =>
+        match s.toInt?, parseBytes a, nx.toInt? with
+        | some s, some a, some nx =>
+          match LRTable.setGoto shuffle t g s a nx with
+          | .ok (t', g') =>
+            t := t'; g := g'
+            out := out.push s!"ok | {summaryWith toU64 rowSize t'.gotos} row:{rowStr t'.gotos s}"
+          | .panic => dead := true; out := out.push "panic"
+          | .diverge => dead := true; out := out.push "hang"
+        | _, _, _ => out := out.push "bad-op"
+      | ["action", s, a] =>
+        match s.toInt?, parseBytes a with
+        | some s, some a =>
+          match LRTable.actionSet t s a with
+          | .ok (some [x]) => out := out.push s!"ok some {x}"
+          | .ok (some []) => out := out.push "ok none"
+          | .ok (some l) => out := out.push s!"ok conflict {l.length}"
+          | .ok none => out := out.push "ok none"
+          | .panic => dead := true; out := out.push "panic"
+          | .diverge => dead := true; out := out.push "hang"
+        | _, _ => out := out.push "bad-op"
+      | ["goto", s, a] =>
+        match s.toInt?, parseBytes a with
+        | some s, some a =>
+          match LRTable.goto t s a with
+          | .ok (some x) => out := out.push s!"ok some {x}"
+          | .ok none => out := out.push "ok none"
+          | .panic => dead := true; out := out.push "panic"
+          | .diverge => dead := true; out := out.push "hang"
+        | _, _ => out := out.push "bad-op"
+      | ["probes", s] =>
+        match s.toInt? with
+        | some s => out := out.push s!"ok A:{probesStr hashState t.actions s} G:{probesStr hashState t.gotos s}"
+        | none => out := out.push "bad-op"
+      | _ => out := out.push "bad-op"
+    return out.toList
+  | _ => return ops.map fun _ => "panic"
 
 def runCase (hdr : List String) (ops : List String) : List String :=
-  AlgoVerif.C02.Driver.runCase hdr ops
+  let g := Rng.ofSeed (headerInt hdr "shuffle" 0)
+  match headerGet hdr "comp" with
+  | some "productions" => runProductions g ops
+  | some "lrtable" => runLRTable g ops
+  | _ => AlgoVerif.C02.Driver.runCase hdr ops
 
 end AlgoVerif.C03.Driver
